@@ -12,12 +12,12 @@ import (
 )
 
 type trav struct {
-	opT                                                                             *types.Named
+	opT                                                                               *types.Named
 	closest, unqueried, queried, outstanding, cond, stalled, stopping, stopped, input *types.Var
-	alpha, k, doQuery, nodeFilter, dataFilter, target                                *types.Var
-	start, run                                                                       *ssa.Function
-	mu                                                                               *types.Var
-	push, knnNew, farthest, full                                                     *ssa.Function
+	alpha, k, doQuery, nodeFilter, dataFilter, target                                 *types.Var
+	start, run                                                                        *ssa.Function
+	mu                                                                                *types.Var
+	push, knnNew, farthest, full                                                      *ssa.Function
 }
 
 func (w *World) trav() *trav {
